@@ -300,6 +300,10 @@ where
 				ValueType::Arraylike { element_type: b } => a.is_like(b),
 				_ => self == other,
 			},
+			// An element can be a structure of which only a member is known.
+			ValueType::Struct { .. }
+			| ValueType::Word { .. }
+			| ValueType::Pointer { .. } => self.can_be_concretization_of(other),
 			_ => self == other,
 		}
 	}
